@@ -15,6 +15,9 @@ def family_root(prog, ctx):
     return "CountingBloomFilter" if prog.cls(ctx).is_subclass_of("CountingBloomFilter") else "BloomFilter"
 
 
+ITEMSIZE = {"B": 1, "b": 1, "H": 2, "h": 2, "I": 4, "i": 4, "L": 8, "l": 8, "Q": 8, "q": 8}
+
+
 def alloc_lengths(prog, cn, fld):
     """canonical length expressions (over field reads) that size self.<fld> in context cn"""
     out = set()
@@ -22,23 +25,41 @@ def alloc_lengths(prog, cn, fld):
     init = K.find_method("__init__")
     if init is None:
         return out
+    per_path = []
     for p in paths(prog, cn, init, inline="deep"):
+        if p.exit[0] != "return":
+            continue
+        here = set()
+        assigned = False
         for e in p.events:
             if e.kind == "setfield" and e.base == SELF and e.name == fld:
+                assigned = True
                 v = e.value
+                if not (v[0] == "nary" and v[1] == "*"):
+                    # filled from somewhere else (e.g. from a file): a field can be the array's length on this path only if the path
+                    # gave it a value at all - a length cache that is still at its constant default here is not the length
+                    here = {("f", SELF, n, 0) for (b, n), fv in p.fields.items() if b == SELF and fv[0] != "c"}
                 if v[0] == "nary" and v[1] == "*":
                     arr = [x for x in v[2] if x[0] == "newb"]
                     rest = [x for x in v[2] if x[0] != "newb"]
                     if arr and rest:
+                        here = set()  # the last allocation on the path counts
                         byval = {}
                         for (b, n), fv in p.fields.items():
                             if b == SELF:
                                 byval.setdefault(fv, n)
                         whole = rest[0] if len(rest) == 1 else ("nary", "*", tuple(rest))
-                        if whole in byval:
-                            out.add(("f", SELF, byval[whole], 0))
+                        for (b, n), fv in p.fields.items():
+                            if b == SELF and fv == whole:
+                                here.add(("f", SELF, n, 0))
                         fac = [("f", SELF, byval[x], 0) if x in byval else strip_epochs(x) for x in rest]
-                        out.add(canon(fac[0] if len(fac) == 1 else ("nary", "*", tuple(fac))))
+                        here.add(canon(fac[0] if len(fac) == 1 else ("nary", "*", tuple(fac))))
+        if here or assigned:
+            per_path.append(here)
+    # a field names the allocation length only if it does so on EVERY constructor path that allocates the array
+    # (a cache filled on the parameter path but not on the file path is not the length of a loaded structure)
+    if per_path:
+        out = {x for x in set.intersection(*per_path) if x[0] == "f"} | {x for s_ in per_path for x in s_ if x[0] != "f"}
     if not out:
         for base in K.mro()[1:]:
             out |= alloc_lengths(prog, base.name, fld)
@@ -52,7 +73,9 @@ def is_full_range(prog, ctx, fld, idx):
     from ..expr import rowform
     idx = strip_epochs(rowform(idx))
     if idx[0] == "ix" and outer_field(idx[2]) == fld and idx[2][0] == "f":
-        return True  # enumerate(self.F) / zip(self.F, ...) / range(len(self.F))
+        # enumerate(self.F) / zip(self.F, ...) / range(len(self.F)) - unless F is a file mapping here (cells + footer)
+        from ..common import typed_fields
+        return "mmap" not in typed_fields(prog, ctx).get(fld, set())
     if idx[0] not in ("it", "ix"):
         return False
     dom = idx[2]
